@@ -1,4 +1,4 @@
-// Demonstration for the known finding C17 emptyname:expand (run as tests/expand_trailing_dollar_demo.rs in a scratch copy of /repo).
+// Demonstration for the repaired defect C17 emptyname:expand (fails on e3a59f3, passes from the repair on; run as tests/expand_trailing_dollar_demo.rs in a scratch copy of /repo).
 // "Expansion fails rather than guessing for ... an empty variable name": a `$` that ends a component names no variable, yet expand
 // returns Ok and silently drops the `$` — the literal-text scanner (std take_while over the shared stream) swallows the delimiter, so
 // the variable-reading block, which holds the empty-name check, is skipped when nothing follows it.
